@@ -183,6 +183,8 @@ impl AnimationManager {
             // Setup repeat of current animation
             self.next_animation = self.current_animation.clone();
             self.next_animation.repeat_times -= 1;
+            // The repeat starts from the beginning (like a variation does)
+            self.next_animation.animation_time = 0.0;
         }
 
         // Calculate blend factor
